@@ -223,6 +223,21 @@ class Check(core.CheckBase):
                 add('n-not-positive', 'a record/handshake/banner class accepted with n == 0')
             self.stats['length_postconditions'] += 1
 
+        # the same octets as an immutable bytes object: the kind of buffer is not part of the input
+        self.stats['buffer_kinds_compared'] += 1
+        try:
+            obj_bytes, consumed_bytes = cls.parse_immutable(bytes(buf))
+            if not accepted:
+                add('buffer-kind-differs', 'accepted as bytes, rejected as bytearray with %s' % type(error).__name__)
+            elif consumed_bytes != consumed or not structural.equal(obj_bytes, obj):
+                add('buffer-kind-differs', 'bytes and bytearray holding the same octets are read differently (n=%r / n=%r)' % (
+                    consumed_bytes, consumed))
+        except self.allowed as e:
+            if accepted:
+                add('buffer-kind-differs', 'accepted as bytearray, rejected as bytes with %s' % type(e).__name__)
+        except Exception:  # pylint: disable=broad-except
+            self.stats['leaks_ignored_here'] += 1
+
         # parse_mutable
         mutable = bytearray(buf)
         try:
